@@ -64,7 +64,8 @@ CHECKS = {
                      "close-delimited responses are re-framed with Content-Length (their completion needs the close)"],
     ),
     "C05": dict(
-        bins=["fuzz_stream", "sreplay"], replay_bin="sreplay", replay_args=["--monitor", "C05"], campaigns=_fuzz("C05", ""), level="exploration",
+        bins=["fuzz_stream", "sreplay", "c07"], replay_bin="sreplay", replay_args=["--monitor", "C05"], replay_route=[("c07 ", "c07", ["--mode", "c05"])],
+        campaigns=lambda tier, seed: [dict(name="coded_bodies", bin="c07", shards=16, timeout=3000, args=["--mode", "c05"])] + _fuzz("C05", "")(tier, seed), level="exploration",
         prepare="seeds",
         rule=("coverage-guided histories (as C01, but following the documented DATA_OTHER hand-over and without data after close) with a per-transaction "
               "lifecycle automaton evaluated on every callback: phase order per side, monotone progress (100-continue restart excepted), "
@@ -73,8 +74,8 @@ CHECKS = {
         assumptions=STREAM_ASSUME + ["the caller follows the DATA_OTHER hand-over protocol and offers no data after closing a direction"],
     ),
     "C06": dict(
-        bins=["fuzz_stream", "sreplay", "c06x"], replay_bin="sreplay", replay_args=["--monitor", "C06"], replay_route=[("c06 ", "c06x", [])],
-        campaigns=lambda tier, seed: [dict(name="c06x", bin="c06x", shards=16, timeout=3000)] + _fuzz("C06", "")(tier, seed), level="exploration",
+        bins=["fuzz_stream", "sreplay", "c06x", "c07"], replay_bin="sreplay", replay_args=["--monitor", "C06"], replay_route=[("c06 ", "c06x", []), ("c07 ", "c07", ["--mode", "c06"])],
+        campaigns=lambda tier, seed: [dict(name="c06x", bin="c06x", shards=16, timeout=3000), dict(name="coded_bodies", bin="c07", shards=16, timeout=3000, args=["--mode", "c06"])] + _fuzz("C06", "")(tier, seed), level="exploration",
         prepare="seeds",
         rule=("exactness part: rapidcheck well-formed exchanges without content coding (bodies with CR/LF/NUL/dashes and HTTP look-alikes, CL / chunked with sizes, "
               "leading zeros, hex case, extensions, trailers / close-delimited) x 10 personalities x {whole, every single cut of each stream, one byte per call, 6 random "
@@ -83,6 +84,20 @@ CHECKS = {
               "without decompression, end-of-body marker before completion for messages with a body; non-trivial = history with >=2 data calls "
               "in which a headers callback fired"),
         assumptions=STREAM_ASSUME + ["the caller follows the DATA_OTHER hand-over protocol and offers no data after closing a direction"],
+    ),
+    "C07": dict(
+        bins=["c07"], replay_bin="c07", campaigns=lambda tier, seed: [dict(name="c07", bin="c07", shards=16, timeout=3000)], level="exploration",
+        rule=("rapidcheck scenarios: payload {empty, short text, incompressible bytes, repetitive 8-30 KiB crossing the 8 KiB output buffer, ~8 KiB mixed} x coding list "
+              "{gzip (x-gzip, optional FNAME/FCOMMENT/FHCRC/FEXTRA), deflate raw, deflate zlib-wrapped, LZMA-alone (liblzma), 2- and 3-layer lists of the zlib codings, ',' or ', '} x "
+              "direction (response; request with request decompression) x transfer framing {Content-Length, chunked with small/medium/large HTTP chunks, close} x layer limit "
+              "{default, 1, 2, 3, unlimited} x 10 personalities; compressed bytes produced by zlib/liblzma in the harness so every intermediate stage is known. Chunkings: whole, "
+              "every single cut of the coded body when <= 600 bytes (else the first 40, the last 24 and 30 random positions), one byte per call, 5 random multi-cuts. "
+              "Pass-through class: printable text that zlib itself rejects without output as raw, zlib and gzip. Bomb class: 70 KB - 9 MB (thorough 40 MB) of one byte value "
+              "compressed 1-3 times, limits {1000, 8192, 100000, 1 MiB, default}, whole / N cuts / one byte per call, bound checked at every body callback. "
+              "Non-trivial = a cut inside the coded body, or a bomb scenario; distinct by (stream, cut)"),
+        assumptions=["codings in a list are applied by libhtp in header order; lists are generated in that order (the library documents no order)",
+                     "a mismatch in a run with a decompressor restart (T3) while the coded body arrived in more than one piece is attributed to the known finding D7; one-piece runs are never attributed",
+                     "trailing bytes after the end of the compressed stream are not generated (not covered by the statement)"],
     ),
     "C09": dict(
         bins=["fuzz_stream", "sreplay"], replay_bin="sreplay", replay_args=["--monitor", "C09"], campaigns=_fuzz("C09", ""), level="exploration",
